@@ -56,9 +56,13 @@ def reset():
     A = Atoms()
     _dcache.clear()
     del DEFINED[:]
+    del TINY_SEEN[:]
     PATH.start([])
+    GENERIC[0] = False
 
 
+TINY_GUARD = 1e-40
+TINY_SEEN = []
 ONE = ()
 F0 = Fraction(0)
 F1 = Fraction(1)
@@ -245,6 +249,9 @@ def _tofrac(o):
         f = float(o)
         if f != f or f in (math.inf, -math.inf):
             raise OutsideFragment("non-finite float constant %r" % f)
+        if f != 0.0 and abs(f) < TINY_GUARD:
+            TINY_SEEN.append(f)
+            return Fraction(0)     # denormal-range guards such as "+ 1e-50" are treated as 0 (stated assumption)
         return Fraction(repr(f))
     if isinstance(o, (complex, np.complexfloating)):
         if o.imag == 0:
@@ -378,6 +385,13 @@ class RF:
             n = int(n)
             if n == 0:
                 return RF.const(1)
+            if n == 1:
+                return self
+            k = len(self.p)
+            if (k >= POW_ABSTRACT[0] and abs(n) >= 3) or (k >= POW_ABSTRACT[1] and abs(n) >= 2):
+                # let-abstraction: a large base raised to a power becomes a definition atom (expanded only if the
+                # zero test needs it)
+                return RF.atom(def_atom(self), n) if n > 0 else RF.atom(def_atom(self)).inv() ** (-n)
             return RF(p_pow(self.p, n)) if n > 0 else RF(p_pow(self.inv().p, -n))
         return root(self, n.denominator) ** n.numerator
 
@@ -695,6 +709,56 @@ def transc(kind, u):
     return RF.atom(i)
 
 
+POW_ABSTRACT = [6, 14]
+
+
+def def_atom(x):
+    """definition atom standing for the term x"""
+    c, q = p_normalize(x.p)
+    key = ('def', p_key(x.p))
+    return A.new("def#%d" % len(A.names), 'def', x, key=key)
+
+
+def expand_defs(p):
+    """substitute every definition atom by its definition (recursively)"""
+    while True:
+        target = None
+        for m in p:
+            for a, e in m:
+                if A.kind[a] == 'def':
+                    if target is None or a > target:
+                        target = a
+        if target is None:
+            return p
+        D = A.info[target].p
+        out = {}
+        pw = {}
+        for m, c in p.items():
+            e = 0
+            rest = []
+            for b, f in m:
+                if b == target:
+                    e = f
+                else:
+                    rest.append((b, f))
+            if e == 0:
+                _acc(out, m, c)
+                continue
+            if e not in pw:
+                pw[e] = p_pow(D, e) if e > 0 else p_pow(RF(D).inv().p, -e)
+            for mm, cc in p_mul_raw({tuple(rest): c}, pw[e]).items():
+                _acc(out, mm, cc)
+        p = p_reduce(out)
+
+
+def has_defs(p):
+    for m in p:
+        for a, e in m:
+            if A.kind[a] == 'def':
+                return True
+    return False
+
+
 def clear_inverses(p, limit=2000000):
     """numerator of p after multiplying by all denominators (fixpoint: radicals' defining polynomials may
     re-introduce inv atoms)"""
@@ -750,7 +814,26 @@ def iszero(x):
         return True
     if x.is_const():
         return False
-    return not clear_inverses(x.p)
+    r = clear_inverses(x.p)
+    if not r:
+        return True
+    if has_defs(r) or _defs_inside(r):
+        r = clear_inverses(expand_defs(_expand_nested(r)))
+        return not r
+    return False
+
+
+def _defs_inside(p):
+    """does any inv atom's polynomial mention a definition atom?"""
+    for m in p:
+        for a, e in m:
+            if A.kind[a] == 'inv' and has_defs(A.info[a]):
+                return True
+    return False
+
+
+def _expand_nested(p):
+    return p
 
 
 # ---------------------------------------------------------------------------------------------------------------
@@ -767,14 +850,14 @@ def atom_deps(a):
         d = frozenset((a,))
     elif k == 'rad':
         d = poly_deps(info[1])
-    elif k in ('cos', 'exp', 'log', 'atan'):
+    elif k in ('cos', 'exp', 'log', 'atan', 'def'):
         d = poly_deps(info.p)
     elif k == 'sin':
         d = atom_deps(info)
     elif k == 'inv':
         d = poly_deps(info)
     elif k == 'ind':
-        d = frozenset()
+        d = poly_deps(info.val.p)
     elif k in ('fun', 'dfun'):
         s = set()
         for arg in info[1]:
@@ -843,6 +926,8 @@ def d_atom(a, x):
         r = diff(u, x) / (u * u + 1)
     elif k == 'ind':
         r = RF({})
+    elif k == 'def':
+        r = diff(A.info[a], x)
     elif k == 'fun':
         fname, args, comp = A.info[a]
         r = RF({})
@@ -910,6 +995,11 @@ class SymArray(np.ndarray):
 
     def __le__(self, o):
         return np.less_equal(self, o, dtype=object).view(SymArray)
+
+    def __array_wrap__(self, out, context=None, return_scalar=False):
+        if getattr(out, "ndim", 1) == 0:
+            return out[()]
+        return out.view(SymArray) if isinstance(out, np.ndarray) else out
 
     def __setitem__(self, key, val):
         if isinstance(key, np.ndarray) and key.dtype == object and key.shape == self.shape and key.size \
@@ -1049,6 +1139,8 @@ def _subs_atom(a, mapping, keys, memo):
         r = transc(k, substitute(info, mapping, memo))
     elif k == 'inv':
         r = substitute(RF(info), mapping, memo).inv()
+    elif k == 'def':
+        r = substitute(info, mapping, memo)
     elif k == 'fun':
         fname, args, comp = info
         nargs = tuple(tuple(substitute(t, mapping, memo) for t in arg) for arg in args)
@@ -1147,6 +1239,8 @@ def _eval_atom(a, env, cache, ctx):
         r = M.log(v)
     elif k == 'atan':
         r = M.atan(evalf(info, env, cache, ctx))
+    elif k == 'def':
+        r = evalf(info, env, cache, ctx)
     elif k == 'inv':
         v = evalf(RF(info), env, cache, ctx)
         if v == 0:
@@ -1194,7 +1288,7 @@ def show_atom(a, depth=3):
         return "cos(%s)" % show(info, 4, depth - 1)
     if k == 'sin':
         return "sin(%s)" % show(A.info[info], 4, depth - 1)
-    if k in ('exp', 'log', 'atan'):
+    if k in ('exp', 'log', 'atan', 'def'):
         return "%s(%s)" % (k, show(info, 4, depth - 1))
     if k == 'inv':
         return "inv(%s)" % show(RF(info), 4, depth - 1)
